@@ -1,0 +1,26 @@
+//go:build verif
+
+// Package verifx re-exports the witness implementation, which lives in a
+// doubly-internal package, for the external verification harness.
+package verifx
+
+import (
+	ihttp "github.com/google/certificate-transparency-go/internal/witness/cmd/witness/internal/http"
+	"github.com/google/certificate-transparency-go/internal/witness/cmd/witness/internal/witness"
+)
+
+type (
+	// Witness is witness.Witness.
+	Witness = witness.Witness
+	// Opts is witness.Opts.
+	Opts = witness.Opts
+	// Server is the HTTP front end of a witness.
+	Server = ihttp.Server
+)
+
+var (
+	// New is witness.New.
+	New = witness.New
+	// NewServer is http.NewServer.
+	NewServer = ihttp.NewServer
+)
